@@ -22,3 +22,7 @@ open MtailVerif.C01
 #print axioms MtailVerif.C01.compare_skeletons
 #print axioms MtailVerif.C01.codegenBefore_skeletons
 #print axioms MtailVerif.C01.codegenAfter_skeletons
+#print axioms MtailVerif.C01.f_checker_checker_skeletons
+#print axioms MtailVerif.C01.f_codegen_codegen_skeletons
+#print axioms MtailVerif.C01.f_vm_vm_skeletons
+#print axioms MtailVerif.C01.f_types_types_skeletons
